@@ -509,6 +509,9 @@ func (o *MixinClaims) UnmarshalJSON(data []byte) error {
 type NumberedProfile struct {
 	Name string
 	Base int
+	// Hook makes the struct type non-comparable (profiles carrying a factory
+	// function are common): comparing two such IProfile values with == panics
+	Hook func()
 }
 
 func (p NumberedProfile) GetName() string { return p.Name }
@@ -590,6 +593,19 @@ func (p ShadowProfile) GetClaims() psatoken.IClaims {
 	}
 	return &ShadowClaims{P2Claims: psatoken.P2Claims{Profile: &ep, SwComponents: &psatoken.SwComponents[*psatoken.SwComponent]{}, CanonicalProfile: p.Name}}
 }
+
+// PrefixKeyClaims has a claim whose CBOR key merely STARTS WITH the digits of
+// the profile key (2650 vs 265): it has no profile field.
+type PrefixKeyClaims struct {
+	psatoken.IClaims
+	Vendor *string `cbor:"2650,keyasint" json:"vendor-data"`
+	Other  *string `cbor:"-750001,keyasint" json:"other-data"`
+}
+
+type PrefixKeyProfile struct{ Name string }
+
+func (p PrefixKeyProfile) GetName() string             { return p.Name }
+func (p PrefixKeyProfile) GetClaims() psatoken.IClaims { return &PrefixKeyClaims{} }
 
 // NoJSONTagClaims has a profile field (by CBOR key) without a json tag.
 type NoJSONTagClaims struct {
